@@ -3,6 +3,7 @@ package snowx
 import (
 	"bytes"
 	"encoding/json"
+	"errors"
 	"fmt"
 	"math/rand/v2"
 	"runtime"
@@ -212,6 +213,216 @@ func (e *engine) judgeDeferred() {
 	}
 }
 
+// ------------------------------------------- lookups overlapping an Accept ----
+
+// acceptDuringLookup accepts m (a processing child of the last accepted block
+// n, height h) exactly while a lookup by height issued on another goroutine is
+// inspecting n: the lookup goroutine is held inside GetHeight() of n's block
+// object (the fixture's own block type, see recChain.heightHook) until
+// Accept(m) returned on the engine thread. This is the schedule "the reader is
+// descheduled between looking at the last accepted block and answering"; it is
+// reached by a handshake, nothing sleeps. The lookup started when h was
+// accepted, so an answer for a height <= h must be the accepted block of that
+// height; for h+1 it may be "not found" or m.
+func (e *engine) acceptDuringLookup(m *node, sync bool) {
+	n := e.last
+	h := n.b.Hght
+	x := h
+	switch y := e.rng.IntN(10); {
+	case y < 1 && h > 0:
+		x = h - 1
+	case y < 3:
+		x = h + 1
+	}
+	api := [...]string{"VM.GetBlockIDAtHeight", "VM.GetBlockIDAtHeight", "VM.GetBlockByHeight", "ConsensusIndex.GetBlockByHeight"}[e.rng.IntN(4)]
+	e.op('f', "lookup %s(%d) overlapped by the accept of %s", api, x, m.b)
+	w := &forcedWin{id: n.b.id, trigger: make(chan struct{}), done: make(chan struct{})}
+	var (
+		got  ids.ID
+		gotH uint64
+		err  error
+	)
+	vm, ci, ctx, chain := e.vm, e.chain.ci, e.ctx, e.chain
+	wit := e.cc.witness()
+	lookupDone := kit.Go(func() {
+		w.goid = curGoid()
+		chain.forced.Store(w)
+		defer chain.forced.Store(nil)
+		e.r.Guard(api, wit, func() {
+			switch api {
+			case "VM.GetBlockIDAtHeight":
+				got, err = vm.GetBlockIDAtHeight(ctx, x)
+				gotH = x
+			case "VM.GetBlockByHeight":
+				var sb *sblock
+				if sb, err = vm.GetBlockByHeight(ctx, x); err == nil && sb != nil {
+					got, gotH = sb.ID(), sb.Height()
+				} else if err == nil {
+					err = errors.New("nil block")
+				}
+			default:
+				var b *blk
+				if b, err = ci.GetBlockByHeight(ctx, x); err == nil && b != nil {
+					got, gotH = b.id, b.Hght
+				} else if err == nil {
+					err = errors.New("nil block")
+				}
+			}
+		})
+	})
+	select {
+	case <-w.trigger:
+		e.stat["forced_windows"]++
+		e.stat["forced_windows_"+api]++
+		e.accept(m, sync)
+		close(w.done)
+	case <-lookupDone:
+		// the lookup never inspected the last accepted block: no window to use
+		e.stat["forced_window_not_reached"]++
+		e.accept(m, sync)
+	}
+	res, stacks := kit.AwaitOrDeadlock(lookupDone, []string{"hypersdk/snow.", "hypersdk/snow/"}, deadlockGrace, deadlockWatchdog)
+	if res == kit.Deadlock {
+		e.fail("lookup-deadlock", "%s(%d) overlapped by Accept(%s) never returned; every goroutine of the wrapper is parked:\n%s", api, x, m.b, stacks)
+		return
+	} else if res == kit.Unknown {
+		e.dead = true
+		e.r.Inconclusive("case %d: a lookup by height overlapped by an Accept did not return within the watchdog and no deadlock witness was found", e.cc.wit.Case)
+		return
+	}
+	if w.escaped.Load() {
+		e.stat["forced_window_escaped"]++
+	}
+	if e.dead {
+		return
+	}
+	accepted := m.st == stAccepted
+	switch {
+	case x <= h:
+		want := e.accepted[x].b // C20 chains start at height 0
+		if err != nil {
+			e.cc.violation("lookup-height-during-accept", "%s(%d) issued while height %d was the last accepted block and overlapped by Accept(%s) failed: %v", api, x, h, m.b, err)
+		} else if got != want.id || gotH != x {
+			what := "another block"
+			if got == m.b.id {
+				what = fmt.Sprintf("the block of height %d accepted during the call", m.b.Hght)
+			}
+			e.cc.violation("lookup-height-during-accept", "%s(%d) issued while height %d was the last accepted block and overlapped by Accept(%s) returned %s (h=%d) = %s; the accepted chain has %s at height %d", api, x, h, m.b, short(got), gotH, what, want, x)
+		}
+	default:
+		if err == nil && (!accepted || got != m.b.id || gotH != x) {
+			e.cc.violation("lookup-height-during-accept", "%s(%d) overlapped by Accept(%s) returned %s (h=%d) which is not the block accepted at that height", api, x, m.b, short(got), gotH)
+		} else if err != nil {
+			e.stat["forced_lookup_above_tip_not_found"]++
+		}
+	}
+}
+
+// hammerObs is one answer of VM.GetBlockIDAtHeight obtained by a hammering reader.
+type hammerObs struct {
+	h      uint64
+	pub    uint64 // tip the engine had published before the call started
+	got    ids.ID
+	failed bool
+	errStr string
+}
+
+type hammerRes struct {
+	reads, atTip, overlapped, notFoundAhead int
+	bad                                     []hammerObs // contradict the published chain
+	deferred                                []hammerObs // answered ahead of what the engine had published
+}
+
+// hammer asks VM.GetBlockIDAtHeight for the height that is the last accepted
+// one at the time of the call (and its neighbours) as fast as it can while the
+// engine thread accepts a run of consecutive blocks. An answer for height h
+// must be the accepted block of height h, or "not found" if the engine had not
+// yet accepted h when the call started - never the block of another height.
+func (e *engine) hammer(seed uint64, stop *atomic.Bool, res *hammerRes, wg *sync.WaitGroup) {
+	defer wg.Done()
+	rng := rand.New(rand.NewPCG(seed, 99))
+	hl := e.hlog
+	for !stop.Load() {
+		pub := uint64(hl.n.Load() - 1)
+		s0 := e.acceptSeq.Load()
+		h := pub
+		switch y := rng.IntN(20); {
+		case y < 13:
+			h = e.vm.LastAcceptedBlock(e.ctx).Height() // the very block the next Accept replaces
+			res.atTip++
+		case y < 15:
+			res.atTip++
+		case y < 17:
+			if pub > 0 {
+				h = pub - 1
+			}
+		case y < 19:
+			h = pub + 1
+		default:
+			h = pub + 2
+		}
+		id, err := e.vm.GetBlockIDAtHeight(e.ctx, h)
+		res.reads++
+		if s1 := e.acceptSeq.Load(); s1 != s0 || s0&1 == 1 {
+			res.overlapped++
+		}
+		o := hammerObs{h: h, pub: pub, got: id}
+		if err != nil {
+			if h > pub {
+				res.notFoundAhead++
+				continue
+			}
+			o.failed, o.errStr = true, err.Error()
+			if len(res.bad) < 4 {
+				res.bad = append(res.bad, o)
+			}
+			continue
+		}
+		if want, ok := hl.get(h); ok {
+			if want != id && len(res.bad) < 4 {
+				res.bad = append(res.bad, o)
+			}
+		} else if len(res.deferred) < 1<<16 {
+			res.deferred = append(res.deferred, o)
+		}
+	}
+}
+
+// judgeHammer reports what the hammering readers saw (engine thread, readers stopped).
+func (e *engine) judgeHammer(all []hammerRes) {
+	report := func(o hammerObs) {
+		want, ok := e.accByH[o.h]
+		switch {
+		case o.failed:
+			e.cc.violation("lookup-concurrent", "concurrent GetBlockIDAtHeight(%d) failed (%s) although the engine had accepted height %d before the call", o.h, o.errStr, o.pub)
+		case ok && want == o.got:
+		default:
+			if x := e.byID[o.got]; x != nil && x.st == stAccepted && x.b.Hght != o.h {
+				e.cc.violation("lookup-height-concurrent-other-height", "concurrent GetBlockIDAtHeight(%d) (engine's tip before the call: %d) returned %s, the accepted block of height %d; the accepted chain has %s at height %d", o.h, o.pub, short(o.got), x.b.Hght, short(want), o.h)
+			} else {
+				e.cc.violation("lookup-concurrent", "concurrent GetBlockIDAtHeight(%d) returned %s; the accepted chain has %s there (known=%v)", o.h, short(o.got), short(want), ok)
+			}
+		}
+	}
+	for _, res := range all {
+		e.stat["hammer_reads"] += res.reads
+		e.stat["hammer_reads_for_tip_height"] += res.atTip
+		e.stat["hammer_reads_overlapping_accept"] += res.overlapped
+		e.stat["hammer_not_found_above_tip"] += res.notFoundAhead
+		e.stat["hammer_answers_ahead_of_engine"] += len(res.deferred)
+		for _, o := range res.bad {
+			report(o)
+		}
+		nbad := 0
+		for _, o := range res.deferred {
+			if want, ok := e.accByH[o.h]; (!ok || want != o.got) && nbad < 4 {
+				nbad++
+				report(o)
+			}
+		}
+	}
+}
+
 // --------------------------------------------------------------- a case ----
 
 type c20Result struct {
@@ -225,6 +436,7 @@ type c20Result struct {
 type c20Mode struct {
 	Readers int  `json:"readers"` // goroutines calling the lookup API concurrently
 	Stress  bool `json:"stress"`  // straight-line accept stream with readers asking for the tip height
+	Hammer  int  `json:"hammer"`  // stress only: goroutines hammering VM.GetBlockIDAtHeight(tip height)
 }
 
 func runC20Case(t testing.TB, r *kit.Run, idx int, seed [2]uint64, mode c20Mode) c20Result {
@@ -239,7 +451,7 @@ func runC20Case(t testing.TB, r *kit.Run, idx int, seed [2]uint64, mode c20Mode)
 	}
 	steps := 30 + rng.IntN(70)
 	if mode.Stress {
-		steps = 150
+		steps = 36 + rng.IntN(10)
 	}
 	cc := &caseCtx{r: r, prop: "C20", wit: caseWitness{Case: idx, Seed: seed, Cfg: map[string]any{"vm": cfg, "mode": mode}}}
 	genesis := makeBlk(ids.Empty, 0, 1_000, uint64(idx), false, 0)
@@ -250,8 +462,16 @@ func runC20Case(t testing.TB, r *kit.Run, idx int, seed [2]uint64, mode c20Mode)
 	}
 	e := newEngine(cc, r, rng, cfg, chain, vm, genesis)
 	e.ctxP, e.probeP = 30, 30
+	e.firstHandleP, e.checkKnown, e.forceP = 60, true, 20
 	if cfg.MaxLag > 0 {
 		chain.gate.setOpen(false)
+	}
+	var hres []hammerRes
+	if mode.Stress {
+		e.forceP = 30
+		e.hlog = newHeightLog(steps+2, genesis.id)
+		chain.yieldHeights.Store(true)
+		hres = make([]hammerRes, mode.Hammer)
 	}
 
 	var stop atomic.Bool
@@ -260,6 +480,10 @@ func runC20Case(t testing.TB, r *kit.Run, idx int, seed [2]uint64, mode c20Mode)
 	for i := 0; i < mode.Readers; i++ {
 		wg.Add(1)
 		go e.reader(seed[0]+uint64(i), mode.Stress, &stop, &reads[i], &wg)
+	}
+	for i := range hres {
+		wg.Add(1)
+		go e.hammer(seed[1]+uint64(i), &stop, &hres[i], &wg)
 	}
 
 	e.checkLookups(true)
@@ -277,6 +501,11 @@ func runC20Case(t testing.TB, r *kit.Run, idx int, seed [2]uint64, mode c20Mode)
 	wg.Wait()
 	for _, k := range reads {
 		e.stat["concurrent_reads"] += k
+	}
+	chain.yieldHeights.Store(false)
+	if mode.Stress {
+		e.stat["stress_cases"] = 1
+		e.r.Guard("judgeHammer", cc.witness(), func() { e.judgeHammer(hres) })
 	}
 
 	quiesced := e.shutdown()
@@ -339,10 +568,79 @@ func (e *engine) stepStress() {
 		}
 	}
 	if !e.dead {
-		e.accept(n, false)
+		e.acceptMaybeForced(n, false)
 	}
 	if e.rng.IntN(4) == 0 {
 		e.grantSome()
+	}
+}
+
+// acceptMaybeForced issues the accept of n, forceP% of the time exactly while
+// a lookup by height is in flight (see acceptDuringLookup).
+func (e *engine) acceptMaybeForced(n *node, sync bool) {
+	if e.forceP > 0 && e.rng.IntN(100) < e.forceP && n.parent == e.last {
+		e.acceptDuringLookup(n, sync)
+		return
+	}
+	e.accept(n, sync)
+}
+
+// stepStale plays the history in which the parsed-block cache holds a stale
+// wrapper of a block the VM meanwhile verified or accepted: a pending block X
+// (the engine keeps its first wrapper) is pushed out of the cache by unrelated
+// parses, arrives again (second wrapper, dropped by the engine), is then
+// verified - mostly through the first wrapper - and its bytes arrive once
+// more while it is processing and, after its acceptance, while it is the last
+// accepted block. What ParseBlock returns is judged in reparse.
+func (e *engine) stepStale() {
+	var x *node
+	if e.rng.IntN(2) == 0 {
+		x = e.pick(e.verifiable)
+	}
+	if x == nil {
+		if e.rng.IntN(4) == 0 && e.prefOK(e.pref) {
+			x = e.build() // a built block left pending
+		} else {
+			parent := e.last
+			if e.rng.IntN(2) == 0 {
+				if p := e.pick(func(n *node) bool { return n.st == stProcessing && e.usable(n) }); p != nil {
+					parent = p
+				}
+			}
+			x = e.parseNew(parent, false, 0)
+		}
+	}
+	if x == nil || e.dead {
+		return
+	}
+	e.stat["stale_scenarios"]++
+	e.parseNoise(e.cfg.ParsedCache + e.rng.IntN(2)) // X leaves the parsed-block cache
+	e.reparse(x)                                    // gossiped again
+	if e.dead {
+		return
+	}
+	if e.rng.IntN(3) == 0 {
+		e.parseNoise(e.rng.IntN(e.cfg.ParsedCache + 1)) // the second wrapper may be evicted as well
+	}
+	if !e.verifiable(x) {
+		return
+	}
+	e.verify(x)
+	if e.dead || x.st != stProcessing {
+		return
+	}
+	if e.rng.IntN(4) > 0 {
+		e.stat["stale_reparse_processing"]++
+		e.reparse(x)
+	}
+	if e.dead || x.parent != e.last || x.b.Invalid || !e.usable(x) || e.rng.IntN(2) == 0 {
+		return
+	}
+	e.accept(x, e.cfg.MaxLag == 0 && e.rng.IntN(2) == 0)
+	if !e.dead {
+		e.stat["stale_reparse_last_accepted"]++
+		e.reparse(x)
+		e.repairPref()
 	}
 }
 
@@ -350,7 +648,7 @@ func (e *engine) stepStress() {
 func (e *engine) stepC20() {
 	x := e.rng.IntN(100)
 	switch {
-	case x < 14: // build on the preference
+	case x < 13: // build on the preference
 		if !e.prefOK(e.pref) {
 			e.repairPref()
 			return
@@ -365,7 +663,7 @@ func (e *engine) stepC20() {
 				e.setPref(n)
 			}
 		}
-	case x < 42: // a new block arrives from the network
+	case x < 39: // a new block arrives from the network
 		var parent *node
 		y := e.rng.IntN(100)
 		switch {
@@ -402,7 +700,7 @@ func (e *engine) stepC20() {
 		if n != nil && e.verifiable(n) && e.rng.IntN(100) < 80 {
 			e.verify(n)
 		}
-	case x < 50: // issue a pending block
+	case x < 47: // issue a pending block
 		if n := e.pick(e.verifiable); n != nil {
 			if e.rng.IntN(2) == 0 {
 				e.reparse(n)
@@ -411,15 +709,30 @@ func (e *engine) stepC20() {
 				e.verify(n)
 			}
 		}
-	case x < 62: // bytes of an already known block arrive again
-		if n := e.pick(func(*node) bool { return true }); n != nil {
+	case x < 58: // bytes of an already known block arrive again, at times after enough other parses to evict it from the parsed-block cache
+		var n *node
+		switch y := e.rng.IntN(10); {
+		case y < 3:
+			n = e.pick(func(n *node) bool { return n.st == stProcessing })
+		case y < 5:
+			n = e.last
+		}
+		if n == nil {
+			n = e.pick(func(*node) bool { return true })
+		}
+		if e.rng.IntN(100) < 35 {
+			e.parseNoise(e.cfg.ParsedCache + e.rng.IntN(2))
+		}
+		if !e.dead {
 			e.reparse(n)
 		}
-	case x < 68:
+	case x < 65: // eviction / re-gossip / verify / re-gossip history of one pending block
+		e.stepStale()
+	case x < 70:
 		if n := e.pick(e.prefOK); n != nil {
 			e.setPref(n)
 		}
-	case x < 88: // a poll finalizes one or more blocks
+	case x < 89: // a poll finalizes one or more blocks
 		depth := 1
 		if e.rng.IntN(100) < 40 {
 			depth += e.rng.IntN(5)
@@ -429,7 +742,7 @@ func (e *engine) stepC20() {
 			if n == nil {
 				break
 			}
-			e.accept(n, e.cfg.MaxLag == 0 && e.rng.IntN(2) == 0)
+			e.acceptMaybeForced(n, e.cfg.MaxLag == 0 && e.rng.IntN(2) == 0)
 		}
 		e.repairPref()
 	default:
@@ -444,6 +757,9 @@ func TestC20(t *testing.T) {
 	r.Rule("case = (VM config with ParsedBlockCacheSize, AcceptedBlockWindowCache in {1,2,4}, async accept lag bound in {0,1,2,3,6,12}) + 30..99 random actions of a model snowman engine (build on preference, parse new block on a processing/last-accepted/unverified/accepted/rejected/unknown parent, valid/invalid/transiently failing, issue pending block, re-parse known bytes, set preference, accept 1..5 blocks of a branch with transitive rejection of the conflicting subtrees, release the gated accept queue). " +
 		"30% of the new (parsed or built) blocks embed a P-Chain context; 22% of the verifications are preceded by a VerifyWithContext of the same block with a mismatching context (missing / extra / other height), followed at once or later by the call with the right one. " +
 		"30% of the accepts are stopped inside ChainIndex.UpdateLastAccepted (before the write and right after = hook window snow.accept.afterIndex) while a reader goroutine looks up by id the block being accepted and up to 7 other processing blocks. " +
+		"Already-known blocks: 60% of the verifications go through the engine's FIRST wrapper of the block; known bytes (pending, processing, accepted, rejected blocks, with a bias to processing blocks and the last accepted block) are parsed again at arbitrary points, 35% of the time after ParsedBlockCacheSize(+1) unrelated parses; 7% of the actions play the history pending block -> evicted from the parsed-block cache -> parsed again -> verified -> parsed again (-> accepted -> parsed again). " +
+		"20% of the accepts (30% in stress cases) are issued exactly while a lookup by height (VM.GetBlockIDAtHeight / VM.GetBlockByHeight / ConsensusIndex.GetBlockByHeight for the tip height h, h-1 or h+1) is held inside GetHeight() of the last accepted block (handshake in the fixture's block type, no sleeps). " +
+		"The last cases are reader-stress cases: 36..45 consecutive accepts while 3 goroutines hammer VM.GetBlockIDAtHeight with the height that is the last accepted one at call time (and h-1, h+1, h+2) and every 4th GetHeight() call yields the processor. " +
 		"Non-trivial = at least 3 accepts and 1 reject; distinct = (config, sequence of action kinds incl. verify/reject sub-steps).")
 	r.Assume(
 		"the engine model issues only calls snowman can issue: Verify only when the parent is processing or last accepted and the block is undecided, Accept only on a processing child of the last accepted block, Reject exactly on the processing blocks of the conflicting subtrees (parents first), decisions go through the handle that was verified",
@@ -454,6 +770,8 @@ func TestC20(t *testing.T) {
 		"the accepted chain of the fixture's ChainIndex is never pruned (window 50000 > case length)",
 		"the engine's decision about a Verify call is its result: a call that returned an error (refused by the chain or because of a mismatching P-Chain context) verified nothing, so no verified notification may be sent during it; whether a mismatching context is refused at all is outside the statement (an accepted call is interpreted like any other successful Verify)",
 		"lookups by id while an Accept is in flight: a block the engine verified and has not rejected is processing or accepted at every instant of the call, so VM.GetBlock / ConsensusIndex.GetBlock must find it (the lookups run on a second goroutine while Accept is parked inside the chain index update; they are awaited, not timed)",
+		"parsing already-known blocks (less demanding reading): for a block the chain verified on the engine's request and that is undecided, and for the last accepted block, ParseBlock must return a wrapper that carries the Output of that execution (any wrapper object); for older accepted blocks only id/height/parent/bytes are compared (the wrapper may serve them from the index without state). A caller may verify what it parsed: Verify on the wrapper returned for a processing block must not make the chain execute the block again nor send another verified notification (the engine took one decision). The engine itself keeps deciding through the wrapper it verified",
+		"lookups by height concurrent with an Accept: a lookup for height x that started when x was already accepted (Accept returned) must return the accepted block of height x; a lookup for a height whose Accept had not returned when the lookup started may fail or return that block; never a block of another height. A GetHeight() call on a block object may take arbitrarily long (it is the chain's block type): holding the looking-up goroutine there while the engine thread accepts the next block is a feasible schedule unless the wrapper holds a lock across the call (then the 1 s escape ends the hold and nothing is concluded from it)",
 	)
 	p := hooks.NewPerturb(r.Rand("hooks"))
 	p.PYield, p.PSleep, p.MaxSleep = 0.25, 0.10, 100*time.Microsecond
@@ -481,8 +799,8 @@ func TestC20(t *testing.T) {
 		r.Finish(0)
 		return
 	}
-	n := r.N(2500, 6000)
-	nStress := r.N(40, 200) // the last nStress cases are reader stress cases
+	nStress := r.N(400, 1600) // the last nStress cases are reader stress cases
+	n := r.N(2500, 6000) + nStress
 	master := r.Rand("cases")
 	seeds := make([][2]uint64, n)
 	for i := range seeds {
@@ -503,7 +821,7 @@ func TestC20(t *testing.T) {
 				}
 				m := mode
 				if i >= n-nStress {
-					m.Stress, m.Readers = true, 2
+					m.Stress, m.Readers, m.Hammer = true, 1, 3
 				}
 				res := runC20Case(t, r, i, seeds[i], m)
 				r.Eval()
@@ -527,6 +845,10 @@ func TestC20(t *testing.T) {
 	}
 	for k, v := range p.Hits() {
 		r.Count("hook_"+k, int(v))
+	}
+	if total["forced_windows"] == 0 || total["reparse_processing_same_handle"]+total["reparse_processing_other_handle"] == 0 || total["hammer_reads_overlapping_accept"] == 0 {
+		r.Inconclusive("observation points never reached: forced lookup windows=%d, re-parses of processing blocks=%d, hammer lookups overlapping an Accept=%d",
+			total["forced_windows"], total["reparse_processing_same_handle"]+total["reparse_processing_other_handle"], total["hammer_reads_overlapping_accept"])
 	}
 	r.Extra("cache_sizes", []int{1, 2, 4})
 	r.Extra("lag_bounds", []int{0, 1, 2, 3, 6, 12})
